@@ -454,7 +454,7 @@ PLANS = {
     "C14": [S(["deadlock"], 16000, 400000, perts=(2, 4))],
     "C15": [MIRI, S(["deadlock"], 16000, 400000, perts=(2, 4), seed_off=500), S(["traffic", "faults"], 3000, 60000)],
     "C16": [S(["traffic", "refs", "timeouts", "kill", "lifecycle", "backpressure", "idle", "faults"], 2500, 60000, mode="diff"), S(["refs", "traffic", "kill"], 2000, 40000, mode="diff", build="none", seed_off=1000)],
-    "C20": [MIRI, M(["readers"], 6, 60), S(["metrics", "traffic", "kill", "faults"], 5000, 120000)],
+    "C20": [MIRI, M(["readers"], 6, 60), M(["slow"], 2, 20, seed_off=5), S(["metrics", "traffic", "kill", "faults"], 5000, 120000)],
     "C17": [M(["blocking"], 8, 90), M(["general"], 6, 60, seed_off=77)],
     "C19": [{"engine": "gen", "actors": (60, 400), "rounds": (1, 3)}, S(["traffic", "faults"], 3000, 60000)],
     "C18": [{"engine": "featdiff", "profiles": ["traffic", "backpressure", "lifecycle", "kill", "refs", "idle", "timeouts", "faults", "metrics"], "count": (1500, 20000)}],
